@@ -117,6 +117,12 @@ def gen_out(ck, limit, step):
     for i in range(10 if quick else 100):
         add([["send", {"kind": "badreply", "size": limit - rng.randrange(0, 400), "seed": 5, "plain": True}],
              ["send", {"kind": "busy"}]], "badkey_near_limit")
+        # a message whose last member is a float, ending at / next to the limit
+        add([["send", {"kind": "fcall", "size": limit - rng.randrange(40, 110), "seed": rng.randrange(0, 8), "plain": True}],
+             ["send", {"kind": "busy"}]], "float_near_limit")
+        add([["enq", {"kind": "call", "size": limit - rng.randrange(150, 400), "seed": 4, "plain": True}],
+             ["enq", {"kind": "fcall", "size": rng.randrange(0, 60), "seed": rng.randrange(0, 8), "plain": True}],
+             ["flush"]], "float_near_limit")
         add([["send", {"kind": "failcall", "size": rng.choice([0, 3, 200, limit - rng.randrange(60, 400)]), "seed": rng.randrange(0, 8),
                        "plain": True}],
              ["send", {"kind": "busy"}]], "refusing_value")
